@@ -12,9 +12,12 @@
      NOT modelled: a config is given in structured form (blocks of lower-case key / raw value
      lines); the correspondence renders it to text and feeds the real parser;
    - patterns contain no `[` (fnmatch character classes); text is ASCII;
-   - Match criteria: all, canonical, final, host, originalhost, user, localuser (no exec);
-   - no canonicalizehostname / canonicalizemaxdots / addressfamily keys (no canonicalization, no
-     DNS), so `canonical` is False in both passes;
+   - Match criteria: all, canonical, final, host, originalhost, user, localuser, exec — exec through the
+     environment function e_exec (no process is run; the harness installs a stub as paramiko.config.invoke);
+   - canonicalisation (CanonicalizeHostname / CanonicalDomains / CanonicalizeMaxDots /
+     CanonicalizeFallbackLocal) is modelled by lookup_full, DNS being the environment function e_resolves;
+     CanonicalizeMaxDots must be ASCII digits; no addressfamily key (family-specific getaddrinfo);
+     `lookup` / `lookup_raw` are the canonicalisation-free restriction (C40_lookup_full_extends);
    - `port` values have no quote / backslash (repr(port) is the value between single quotes). *)
 From PV Require Import Bytes Glob C40_gen.
 Open Scope Z_scope.
